@@ -63,8 +63,8 @@ def fileRoutes (omits : List Bytes) (f : FileEntry) : Startup (List (List Bytes)
         if (ascii "text/").isPrefixOf mime && !Http.validUtf8 f.content then .refused "non UTF-8 text file" else
         let isIndex := name == ascii "index.html"
         let first := if isIndex && !omits.contains (ascii "html") then [f.path] else []
-        let path := if isIndex then f.path.dropLast else f.path
-        .ok (first ++ [omitExt omits path], mime)
+        -- an extension is omitted from file names only: what is left of an index.html's path is its directory (fix: the directory's name is kept)
+        .ok (first ++ [if isIndex then f.path.dropLast else omitExt omits f.path], mime)
 
 /-- all registrations, in the order of the file list; a segment outside the route alphabet refuses the start-up -/
 def derive (mount : List Bytes) (omits : List Bytes) : List FileEntry → Nat → Startup (List (Route × Nat))
